@@ -8,7 +8,7 @@ SPEC = dict(
     theorems=[T + n for n in [
         "powModNat_eq", "isPrime_iff",
         "quotient_mod_spec", "quotient_mod_f_spec", "mod_inverse_spec",
-        "gcdExt_fst", "gcdExt_bezout_degenerate_partial",
+        "gcd_spec", "lcm_spec", "gcdExt_fst", "gcdExt_bezout_degenerate_partial",
         "fib_spec", "fib2_spec", "lucas_spec", "factorial_spec", "binomial_spec", "binomial_neg_spec",
         "divides_spec",
         "pfm_spec", "pfm_total", "totient_spec", "carmichael_spec", "mobius_spec", "mertens_spec",
